@@ -3,21 +3,36 @@ from . import register
 
 register(
     "C03",
-    lean_modules=["GtModel.Props.C03"],
+    lean_modules=["GtModel.Props.C03", "GtModel.Props.C03x", "GtModel.Props.C03m"],
     theorems=[
         "GtModel.C03.reported_eq_sum",
         "GtModel.C03.reported_eq_sum_root",
         "GtModel.C03.three_views_agree",
         "GtModel.C03.three_views_agree_docs",
+        # XML / HTML elements (model GtModel.Xml.xmlEdits, stream scriptxml)
+        "GtModel.C03.xml_reported_eq_sum",
+        "GtModel.C03.xml_reported_eq_sum_root",
+        "GtModel.C03.xml_reported_eq_sum_docs",
+        "GtModel.C03.xml_three_views_agree",
+        # general multisets with duplicates (model GtModel.MSet.msGeneral, stream scriptmset); D21 characterised
+        "GtModel.C03.mset_reported_eq_sum_iff",
+        "GtModel.C03.mset_reported_eq_sum_partial",
+        "GtModel.C03.mset_d21_witness",
     ],
-    streams=["script", "scriptx"],
+    streams=["script", "scriptx", "scriptxml", "scriptmset"],
     assumptions=[
         "the engine has fully tightened every bound (the model is the static final script; stream `script` dumps "
         "the script after `tighten_bounds()` is exhausted)",
     ],
     trusted=[
         "correspondence stream `script`: GtModel.edits reproduces the real engine's final script and costs",
+        "correspondence stream `scriptmset`: GtModel.MSet.msGeneral reproduces script and reported cost of MultiSetEdit "
+        "on multisets with duplicate elements, D21 cases included",
+        "correspondence stream `scriptxml`: GtModel.Xml.xmlEdits reproduces the real engine's final script and costs "
+        "for XML / HTML elements (same builder and node classes for both file types)",
         "GtModel.EditMatrix.solve_total_eq_sum / solve_endPos (proved in Proofs/EditMatrix.lean)",
     ],
-    partial="",
+    partial="MultiSetNode with duplicate elements (library API only): reported = sum is FALSE (D21, Lean witness mset_d21_witness); "
+            "proved: the exact characterisation (mset_reported_eq_sum_iff) and the not-cached case; the case 'no two unmatched "
+            "from-elements equal' needs a sandwich lemma that is not formalised",
 )
